@@ -246,6 +246,17 @@ func buildValue0(j J) interface{} {
 		}
 		return cfg
 	}
+	if r, ok := j["reg"]; ok {
+		// a config of the running forest case, embedded as it is (by pointer or by value)
+		c := forestRegs[numInt(r, 0)]
+		if c == nil {
+			panic("harness: empty register")
+		}
+		if rep == "val" {
+			return *c
+		}
+		return c
+	}
 	if _, ok := j["unsup"]; ok {
 		return make(chan int)
 	}
